@@ -1,5 +1,6 @@
 import AgModel.Gen.Consts
 import AgModel.Proofs.Sampler
+import AgModel.Proofs.SamplerPart
 /-!
 # C17 — committee sampling yields a well-formed, stake-respecting committee
 
@@ -15,12 +16,12 @@ translation_validation): that the real constructors compute this structure (comp
 that a draw is a function of the validator set and the RNG only (two constructions, same seed), that
 FA2's f64 `round`/fallback weights behave like the exact ones away from x.5 boundaries.
 
-Full statement not reached — `partition_degenerate_iff`:
-  `partition w order b = none ↔ partitionDegenerate w b = true` for every order listing the
-  non-zero-weight validators (the D8 panic is independent of the shuffle and happens exactly when
-  `total ≤ (b-1)·⌈total/b⌉`).  Proved here: structure of a successful partition
-  (`partition_bins`), decided witnesses of the panic; the equivalence is compared against the real
-  constructor on every generated case (`degenerate`/`fa1p` ops) but not proved.
+`partition` is `PartitionSampler::new` *as repaired* (fix D8: bins of exactly `total` units, every
+validator contributing `stake · num_bins` units): it can be constructed for every validator set with
+positive total stake (`partition_total`).  The pinned snapshot's algorithm is kept as `partitionOld`
+with decided witnesses of its panic (`partition_d8_witness`, `partition_d8_witness_rotor`); that
+`partitionOld w order b = none ↔ partitionDegenerate w b` for every order was compared on every
+generated case before the repair, never proved, and is no longer of interest.
 -/
 namespace AgModel.Sampler
 
@@ -78,22 +79,78 @@ theorem fa1w_committee (stakes : List Nat) (k : Nat) (c : List Nat) (hk : 0 < k)
     · rw [← hwlen]; exact (hmem v h1).1
   · exact floor_of_prefix stakes k c (by rw [← hreq]; exact hpre)
 
-/-! ## PartitionSampler -/
+/-! ## PartitionSampler (as repaired, fix D8) -/
 
-/-- **Structure of a constructed partition sampler**: exactly `num_bins` bins, none empty (so every
-    `WeightedIndex::new` succeeds), and a draw has exactly one validator per bin. -/
+/-- **The partition sampler can always be constructed** — for every stake vector with positive
+    total, every number of bins `≥ 1` and every order listing the validators of non-zero stake once
+    (the fixed-seed shuffle): no panic, exactly `num_bins` bins, none empty (every
+    `WeightedIndex::new` succeeds), **every bin holds exactly `total` units** (= `total/num_bins`
+    stake), every entry has positive weight and names a validator of the set, and **every validator's
+    units are conserved** (its weights over all bins sum to `stake · num_bins`, so its share of the
+    bins is proportional to its stake). -/
+theorem partition_total (weights order : List Nat) (numBins : Nat) (hB : 0 < numBins)
+    (hT : 0 < total weights) (hord : orderOk weights order = true) :
+    ∃ bins, partition weights order numBins = some bins ∧ bins.length = numBins ∧
+      (∀ b ∈ bins, b ≠ [] ∧ binSum b = total weights ∧ ∀ e ∈ b, 0 < e.2 ∧ e.1 < weights.length) ∧
+      ∀ v, v < weights.length → (bins.map (unitsIn v)).sum = weights.getD v 0 * numBins :=
+  partition_spec weights order numBins hB hT hord
+
+/-- **Structure of a constructed partition sampler** (any order): exactly `num_bins` bins, none
+    empty, and a draw has exactly one validator per bin. -/
 theorem partition_bins (weights order : List Nat) (numBins : Nat) (bins : List (List (Nat × Nat)))
     (h : partition weights order numBins = some bins) :
     bins.length = numBins ∧ (∀ b ∈ bins, b ≠ []) ∧ ∀ c, binsValid bins c = true → c.length = numBins := by
   have hl := partition_length weights order numBins bins h
   exact ⟨hl, partition_nonempty weights order numBins bins h, fun c hc => by rw [binsValid_length bins c hc, hl]⟩
 
-/-- **FA1 with partition fallback** (`_partial`: size, prefix and floor guarantee; membership of the
-    fallback seats in the validator set needs `orderOk`, which the driver reports per case). -/
-theorem fa1p_committee_partial (stakes : List Nat) (k : Nat) (order c : List Nat) (hk : 0 < k)
-    (hT : 0 < total stakes) (h : fa1pValid stakes k order c = true) :
-    c.length = k ∧ floorGuarantee stakes k c = true := by
-  obtain ⟨f, hf, hreq, hsum, _⟩ := fa1_constructs stakes k hk hT
+/-- **Every draw of the partition sampler is well formed**: exactly `num_bins` members (one per
+    bin), each a validator of the set with non-zero stake. -/
+theorem partition_draw (weights order : List Nat) (numBins : Nat) (bins : List (List (Nat × Nat)))
+    (c : List Nat) (hT : 0 < total weights) (hord : orderOk weights order = true)
+    (h : partition weights order numBins = some bins) (hc : binsValid bins c = true) :
+    c.length = numBins ∧ ∀ v ∈ c, v < weights.length ∧ 0 < weights.getD v 0 := by
+  refine ⟨(partition_bins weights order numBins bins h).2.2 c hc, ?_⟩
+  intro v hv
+  obtain ⟨b, hb, e, he, he1, he2⟩ := binsValid_mem bins c hc v hv
+  by_cases hB : numBins = 0
+  · subst hB
+    have : bins = [] := by simpa [partition] using h.symm
+    subst this
+    simp at hb
+  · obtain ⟨bins', hp, _, hall, hcons⟩ := partition_total weights order numBins (by omega) hT hord
+    have : bins' = bins := by rw [hp] at h; injection h
+    subst this
+    have hlt : v < weights.length := by rw [← he1]; exact ((hall b hb).2.2 e he).2
+    refine ⟨hlt, ?_⟩
+    have h1 := unitsIn_pos v b e he he1 he2
+    have h2 := le_sum_of_mem _ _ (List.mem_map_of_mem (f := unitsIn v) hb)
+    have h3 := hcons v hlt
+    rcases Nat.eq_zero_or_pos (weights.getD v 0) with h0 | h0
+    · rw [h0, Nat.zero_mul] at h3; omega
+    · exact h0
+
+/-- **FA1 with partition fallback can always be constructed** (the D8 panic is gone): for positive
+    total stake, `k ≥ 1` and a shuffle of the fallback validators, FA1 pre-processing and the
+    partition of its fallback weights into `k'` bins both succeed. -/
+theorem fa1p_constructs (stakes : List Nat) (k : Nat) (order : List Nat) (hk : 0 < k)
+    (hT : 0 < total stakes) (hord : ∀ f, fa1 stakes k = some f → orderOk f.weights order = true) :
+    ∃ f bins, fa1 stakes k = some f ∧ partition f.weights order f.kPrime = some bins ∧
+      bins.length = f.kPrime ∧ f.req.length + f.kPrime = k := by
+  obtain ⟨f, hf, _, hsum, _⟩ := fa1_constructs stakes k hk hT
+  by_cases h0 : f.kPrime = 0
+  · exact ⟨f, [], hf, by simp [partition, h0], by simp [h0], hsum⟩
+  · obtain ⟨bins, hp, hl, _⟩ := partition_total f.weights order f.kPrime (by omega)
+      (fa1_weights_pos stakes k f hT hf) (hord f hf)
+    exact ⟨f, bins, hf, hp, hl, hsum⟩
+
+/-- **FA1 with partition fallback: every draw is well formed** (full strength since fix D8; before,
+    only `_partial`).  Exactly `k` members of the validator set, the floor guarantee for every
+    validator. -/
+theorem fa1p_committee (stakes : List Nat) (k : Nat) (order c : List Nat) (hk : 0 < k)
+    (hT : 0 < total stakes) (hord : ∀ f, fa1 stakes k = some f → orderOk f.weights order = true)
+    (h : fa1pValid stakes k order c = true) :
+    c.length = k ∧ (∀ v ∈ c, v < stakes.length) ∧ floorGuarantee stakes k c = true := by
+  obtain ⟨f, hf, hreq, hsum, hwlen⟩ := fa1_constructs stakes k hk hT
   unfold fa1pValid at h
   simp only [hf, Bool.and_eq_true, beq_iff_eq] at h
   obtain ⟨hpre, hbins⟩ := h
@@ -101,15 +158,30 @@ theorem fa1p_committee_partial (stakes : List Nat) (k : Nat) (order c : List Nat
   | none => simp [hp] at hbins
   | some bins =>
     simp only [hp] at hbins
-    have := (partition_bins f.weights order f.kPrime bins hp).2.2 _ hbins
-    exact ⟨by rw [length_of_take_drop c f.req f.kPrime hpre this]; exact hsum,
+    have hd := partition_draw f.weights order f.kPrime bins _ (fa1_weights_pos stakes k f hT hf)
+      (hord f hf) hp hbins
+    refine ⟨by rw [length_of_take_drop c f.req f.kPrime hpre hd.1]; exact hsum, ?_,
       floor_of_prefix stakes k c (by rw [← hreq]; exact hpre)⟩
+    intro v hv
+    rcases mem_of_take_drop c f.req.length v hv with h1 | h1
+    · rw [hpre, hreq] at h1; exact required_mem_lt stakes k v h1
+    · rw [← hwlen]; exact (hd.2 v h1).1
 
-/-- D8 witnesses: 6 equal stakes do not fill 4 bins; `Rotor::new_fa1` on 100 equal stakes (k = 64). -/
-theorem partition_d8_witness : partition [1, 1, 1, 1, 1, 1] [0, 1, 2, 3, 4, 5] 4 = none := by decide
+/-- D8 witnesses on the pinned snapshot's algorithm (`partitionOld`): 6 equal stakes do not fill 4
+    bins; `Rotor::new_fa1` on 100 equal stakes (k = 64) hits the degenerate condition. -/
+theorem partition_d8_witness : partitionOld [1, 1, 1, 1, 1, 1] [0, 1, 2, 3, 4, 5] 4 = none := by decide
 
 theorem partition_d8_witness_rotor :
     (fa1 (List.replicate 100 1) 64).map (fun f => (f.kPrime, partitionDegenerate f.weights f.kPrime)) = some (64, true) := by
+  decide +kernel
+
+/-- … and the same inputs on the repaired algorithm: four bins of 6 units each. -/
+theorem partition_d8_fixed :
+    partition [1, 1, 1, 1, 1, 1] [0, 1, 2, 3, 4, 5] 4 =
+      some [[(0, 4), (1, 2)], [(1, 2), (2, 4)], [(3, 4), (4, 2)], [(4, 2), (5, 4)]] := by decide
+
+theorem partition_d8_fixed_rotor :
+    ((fa1 (List.replicate 100 1) 64).bind (fun f => partition f.weights (List.range 100) f.kPrime)).map (·.length) = some 64 := by
   decide +kernel
 
 /-! ## FA2 -/
@@ -176,7 +248,8 @@ theorem decay_cap (weights : List Nat) (num den k : Nat) (c : List Nat) (hden : 
 
 example : fa1 [52, 52, 1, 1, 1, 1, 1, 1] 8 = some ⟨[0, 0, 0, 1, 1, 1], 2, false, [11, 11, 1, 1, 1, 1, 1, 1]⟩ := by decide
 example : fa1wValid [52, 52, 1, 1, 1, 1, 1, 1] 8 [0, 0, 0, 1, 1, 1, 5, 0] = true := by decide
-example : partition [1, 1, 1, 1] [2, 0, 3, 1] 2 = some [[(2, 1), (0, 1)], [(3, 1), (1, 1)]] := by decide
+example : partition [1, 1, 1, 1] [2, 0, 3, 1] 2 = some [[(2, 2), (0, 2)], [(3, 2), (1, 2)]] := by decide
+example : orderOk [3, 0, 1, 1] [2, 0, 3] = true ∧ partition [3, 0, 1, 1] [2, 0, 3] 3 = some [[(2, 3), (0, 2)], [(0, 5)], [(0, 2), (3, 3)]] := by decide
 example : fa1pValid [3, 1, 1, 1, 1, 1] 4 [4, 0, 2, 5, 1, 3] [0, 4, 2, 1] = true := by decide
 example : decayValid [5, 1, 1] 3 2 4 [0, 0, 1, 2] = true ∧ decayValid [5, 1, 1] 3 2 4 [0, 0, 0, 2] = false := by decide
 example : fa2 [3, 1] 4 = some ([0, 0, 0, 1], []) := by decide
